@@ -148,7 +148,7 @@ vharness! {
 }
 
 vharness! {
-    /// @prop C08 @tier quick @mode fast @cost 3 @timeout 3600 @funcs Notify::wait @bounds as notify_wait_consumes_stored_t0 with the one spurious wake-up already used
+    /// @prop C08 @tier thorough @mode fast @cost 4 @timeout 3600 @funcs Notify::wait @bounds as notify_wait_consumes_stored_t0 with the one spurious wake-up already used
     /// after the single modelled spurious return no further spurious decision is taken: the flag stays set (at most one spurious return per Notify).
     #[cfg_attr(kani, kani::unwind(8))]
     fn notify_wait_after_spurious_used() { wait_stored_case(true, true) }
